@@ -37,7 +37,7 @@ RO_REWRITES = ['flip_obj', 'decl_order', 'row_form', 'split_eq', 'xbound_form', 
 
 
 BSHAPES = ['scalar', 'row', 'row2', 'col', 'full']
-BFORMS = ['obj', 'neg', 'row', 'loop', 'rowloop', 'abs', 'sparse']
+BFORMS = ['obj', 'neg', 'row', 'loop', 'rowloop', 'abs', 'sparse', 'sninf', 'sabs']
 
 
 BILFORMS = ['plain', 'T', 'TT', 'loop', 'rows', 'matmul', 'rmul', 'reshape']
@@ -99,9 +99,13 @@ def gen_matrix(rng, tier, robust=None):
           'Wz': np.round(rng.uniform(-2, 2, (n, m)), 1).tolist(),
           'W': np.round(rng.uniform(-1, 1, (int(rng.integers(0, 3)), n, m)), 1).tolist(),
           'slack': float(np.round(rng.uniform(0.2, 1.5), 1))}
-    if rng.random() < 0.3:                 # symmetric bounds so that the abs form applies
+    if rng.random() < 0.35:                # symmetric bounds so that the abs / norm forms apply
+        if rng.random() < 0.5:
+            sp['hi'] = float(np.round(rng.uniform(0.5, 3), 1))
         sp['lo'] = (-np.asarray(sp['hi'])).tolist()
-    if rng.random() < 0.3:
+    if rng.random() < 0.35:
+        if rng.random() < 0.5:
+            sp['zhi'] = float(np.round(rng.uniform(0.1, 1), 1))
         sp['zlo'] = (-np.asarray(sp['zhi'])).tolist()
     elif rng.random() < 0.4:
         # some random components fixed at a non-zero value (lower bound == upper bound)
@@ -128,8 +132,10 @@ def _bound(v, b, side, form, n, m, sym=False):
     bb = np.asarray(b, float)
     full = np.broadcast_to(bb, (n, m))
     b = bb if bb.ndim else float(bb)
-    if form == 'abs' and not (side == 'U' and sym):
+    if form in ('abs', 'sabs', 'sninf') and not (side == 'U' and sym):
         form = 'obj'                       # |v| <= b says the same only for symmetric bounds
+    if form == 'sninf' and bb.ndim != 0:
+        form = 'sabs'                      # one norm needs one radius
     if form == 'sparse' and bb.shape != (n, m):
         form = 'obj'                       # scipy sparse matrices do not broadcast
     if form == 'obj':
@@ -148,6 +154,12 @@ def _bound(v, b, side, form, n, m, sym=False):
         return [(v[i] >= full[i]) if side == 'L' else (v[i] <= full[i]) for i in range(n)]
     if form == 'abs':
         return [abs(v) <= full]
+    if form == 'sabs':                     # positively rescaled
+        return [2.5 * abs(v) <= 2.5 * full]
+    if form == 'sninf':                    # a rescaled infinity norm of the flattened variable
+        k_ = [3.0, 0.25, 10.0][int(abs(float(bb)) * 100) % 3]
+        import rsome as rso_
+        return [k_ * rso_.norm(v.reshape((n * m,)), 'inf') <= k_ * float(bb)]
     raise ValueError(form)
 
 
@@ -304,7 +316,7 @@ def gen_case(rng, idx, tier):
                 if nme == 'decl_order':
                     v[nme] = ['zxy', 'xyz', 'zyx', 'yxz', 'yzx'][int(rng.integers(5))]
                 elif nme == 'xbound_form':
-                    v[nme] = int(rng.integers(1, 5))
+                    v[nme] = int(rng.integers(1, 7))
                 elif nme == 'set_args':
                     v[nme] = int(rng.integers(5))
                 elif nme == 'vectorize':
